@@ -96,8 +96,12 @@ def _work_rand(args):
                 p = rng.uniform(-far, far, 3) * edges
                 q = rng.uniform(-far, far, 3) * edges
                 # keep away from exact half-box separations (two images tie)
+                if ortho and rng.random() < 0.12:
+                    # a separation a few millionths of a box edge away from half a box: not a tie, the nearer image is determined
+                    ax = int(rng.integers(0, 3))
+                    q[ax] = p[ax] + (int(rng.integers(-3, 4)) + 0.5 + float(rng.choice([-1, 1])) * float(rng.choice([3e-6, 2e-5]))) * edges[ax]
                 s = (q - p) @ np.linalg.inv(B)
-                if np.abs(np.abs(s - np.round(s)) - 0.5).min() < 1e-4:
+                if np.abs(np.abs(s - np.round(s)) - 0.5).min() < 1e-7:
                     continue
                 rp = make_residue(p, int(rng.integers(1, 6)), rng)
                 rq = make_residue(q, int(rng.integers(1, 6)), rng)
